@@ -203,7 +203,7 @@ class C01(Prop):
                 "input bytes, cursor offset stays <= len. Stack depth: the model's functions are loops, absence of recursion in the "
                 "Rust code is checked on the regenerated call graph, not proved.")
     assumptions = ["bytes are numbers < 256 (bytes_ok), which holds for every Vec<u8>", "usize arithmetic does not overflow 2^64"]
-    generated = ["Constants", "CallGraph", "Casts"]
+    generated = ["Constants", "CallGraph", "Casts", "PanicSites"]
 
     def keep_steps(self, case, io):
         return False
